@@ -51,7 +51,7 @@ class C08:
                          st.sampled_from(shapes()), lat, lat, pre)
 
     def examples(self, tier):
-        return 200 if tier == "quick" else 20000
+        return 200 if tier == "quick" else 150000
 
     def enumerate(self, tier):
         out = []
